@@ -61,10 +61,14 @@ ACTIONS = {
     "sysexit": 'channel.send(("end", {tag}, time.monotonic()))\nraise SystemExit(2)',
     "kbi": 'channel.send(("end", {tag}, time.monotonic()))\nraise KeyboardInterrupt()',
     "blocked": 'x = channel.receive()\nchannel.send(("end", {tag}, time.monotonic()))',
+    # ends by itself a little after the grace period of an overlapping submission has run out
+    "timed": 'time.sleep(1.035)\nchannel.send(("end", {tag}, time.monotonic()))',
 }
 
 
 def body_for(tag, outcome, inproc_main_ident=None):
+    if outcome.startswith("timed:"):
+        ACTIONS[outcome] = ACTIONS["timed"].replace("1.035", outcome.split(":")[1])
     main = "threading.main_thread" if inproc_main_ident is None else f"(lambda: [t for t in threading.enumerate() if t.ident == {inproc_main_ident}][0])"
     return BODY.replace("MAIN()", main + "()").format(tag=tag, action=ACTIONS[outcome].format(tag=tag))
 
@@ -79,6 +83,8 @@ def run_history(res: Result, gw, steps, label, hid, main_ident=None):
         tag = hid * 100 + i
         oc = st["outcome"]
         ch = gw.remote_exec(body_for(tag, oc, main_ident))
+        if oc.startswith("timed"):
+            oc = "timed"
         try:
             first = ch.receive(15)
         except RemoteError as e:
@@ -98,14 +104,23 @@ def run_history(res: Result, gw, steps, label, hid, main_ident=None):
         if first[2] is not True:
             res.violation("body-ran-outside-main-thread", f"{label}: step {i} ({oc}) ran in thread {first[3]}")
         start = first[4]
-        if oc == "blocked":
+        probe_started = None
+        if oc.startswith("timed"):
+            oc = "timed"
+        if oc in ("blocked", "timed"):
             if st["overlap_probe"]:
                 # a submission while this body is still running must be refused with the documented text ...
                 probe = gw.remote_exec(body_for(tag + 50, "return", main_ident))
                 t0 = time.monotonic()
                 try:
                     got = probe.receive(15)
-                    res.violation("overlapping-remote-exec-was-run", f"{label}: step {i}: probe body delivered {got!r}")
+                    if oc == "timed":
+                        # the earlier body ended by itself within the grace period: then the submission legitimately runs,
+                        # but only after that body has ended
+                        probe_started = got
+                        res.count("probe_ran_after_completion")
+                    else:
+                        res.violation("overlapping-remote-exec-was-run", f"{label}: step {i}: probe body delivered {got!r}")
                 except RemoteError as e:
                     res.count("overlap_rejections")
                     if DEADLOCK_TEXT not in str(e):
@@ -115,7 +130,8 @@ def run_history(res: Result, gw, steps, label, hid, main_ident=None):
                 res.info.setdefault("overlap_rejection_latency_s", {})[f"{hid}_{i}"] = round(time.monotonic() - t0, 2)
             # ... without disturbing the earlier one: release it, it completes normally
             try:
-                ch.send("release")
+                if oc == "blocked":
+                    ch.send("release")
             except BaseException as e:
                 res.violation("blocked-body-disturbed", f"{label}: step {i}: send -> {type(e).__name__}: {e}")
                 return
@@ -127,6 +143,14 @@ def run_history(res: Result, gw, steps, label, hid, main_ident=None):
         if end[0] != "end" or end[1] != tag:
             res.violation("foreign-item-on-exec-channel", f"{label}: {end!r}")
         intervals.append((start, end[2], i))
+        if probe_started is not None:
+            if probe_started[4] < end[2]:
+                res.violation("overlapping-remote-exec-was-run", f"{label}: step {i}: probe started at {probe_started[4]:.4f} before the running body ended at {end[2]:.4f}")
+            try:
+                probe.receive(15)
+                probe.waitclose(15)
+            except BaseException as e:
+                res.violation("probe-body-did-not-finish", f"{label}: {type(e).__name__}")
         # wait for the channel to close: that is the submission protocol for the next one
         try:
             ch.waitclose(15)
@@ -136,7 +160,7 @@ def run_history(res: Result, gw, steps, label, hid, main_ident=None):
             text = str(e)
             if oc == "raise" and f"boom {tag}" not in text:
                 res.violation("remoteerror-text-wrong", f"{label}: {text[-200:]}")
-            if oc in ("return", "blocked"):
+            if oc in ("return", "blocked", "timed"):
                 res.violation("successful-body-reported-error", f"{label}: step {i} ({oc}): {text[-200:]}")
         except BaseException as e:
             res.violation(f"exec-channel-never-closed:{oc}", f"{label}: step {i}: {type(e).__name__}")
@@ -169,6 +193,7 @@ def run_shard(spec):
             lines = imodel.function_lines(gb.WorkerGateway._local_schedulexec, gb.WorkerGateway.executetask, gb.WorkerPool._try_send_to_primary_thread,
                                           gb.WorkerPool.integrate_as_primary_thread, gb.WorkerPool.spawn, gb.WorkerPool._perform_spawn, gb.Reply.run)
             res.info["sweep_lines"] = len(lines)
+            sched_lines = set(imodel.function_lines(gb.WorkerGateway._local_schedulexec))
             todo = [(ln, k) for ln in lines for k in spec["ks"]]
             todo = [t for i, t in enumerate(todo) if i % spec["parts"] == spec["part"]]
         for i, (ln, k) in enumerate(todo):
@@ -181,7 +206,12 @@ def run_shard(spec):
             sched = imodel.Sched(rng.getrandbits(32))
             pair = pairs.Pair(("pipe", "tcp")[i % 2], worker_backend="main_thread_only", sched=sched)
             steps = gen_history(rng)
-            if ln is not None:
+            if ln is not None and ln in sched_lines:
+                # the earlier body completes while the overlapping submission is being refused (the stall widens that window)
+                d = {1: "1.035", 2: "1.02", 3: "1.05"}.get(k, "1.065")
+                steps = [{"outcome": "timed:" + d, "overlap_probe": True}, {"outcome": "return", "overlap_probe": False}]
+                res.count("racing_completion_histories")
+            elif ln is not None:
                 steps = steps[:3]
                 for st in steps:
                     if st["overlap_probe"] and rng.random() < 0.5:
@@ -196,7 +226,9 @@ def run_shard(spec):
                 label = f"inproc mode={mode} history={steps}"
             else:
                 pre.restart()
-                pre.set_sweep(ln[0], ln[1], k, stall=0.03)
+                # the overlapping probe is the 2nd submission: stall its 1st.. pass through that line
+                racing = steps[0]["outcome"].startswith("timed")
+                pre.set_sweep(ln[0], ln[1], 2 if racing else k, stall=0.07 if racing else 0.03)
                 label = f"inproc sweep line={ln[1]} k={k} history={steps}"
             try:
                 run_history(res, pair.gw, steps, label, hid, main_ident=pair.wthread.ident)
